@@ -161,16 +161,44 @@ Definition w_oplain : node :=
 
 Definition O (i : Z) (f : bool) : oparam Z := mkO i f.
 
-(* $OMEGA (0.1 FIX)x3, unfix the middle one: the item is split and FIX is inverted - (0.1) (0.1 FIX) (0.1) *)
-Theorem omega_refuted_xn_fix :
-  exists root ps root',
-    oguard_record Z demo root ps = false /\ oguard_fail_children Z demo (children root) ps = [2%nat]
-    /\ odiag_update Z demo root ps = Ok root'
-    /\ str root' = T [32; 40; 48; 46; 49; 41; 32; 40; 48; 46; 49; 32; 70; 73; 88; 41; 32; 40; 48; 46; 49; 41; 10]%nat
-    /\ osem Z demo root' = Ok [O 1 false; O 1 true; O 1 false].
+(* regression for the repaired finding C04-OMEGA-XN-SPLIT (commit b54b188): $OMEGA (0.1 FIX)x3, unfix
+   the middle one.  Before the fix the item was split with FIX inverted - (0.1) (0.1 FIX) (0.1); now the
+   guard holds and the text is (0.1 FIX) (0.1) (0.1 FIX), meaning exactly the requested parameters. *)
+Example omega_xn_fix_fixed :
+  exists root',
+    oguard_record Z demo w_oxn [O 1 true; O 1 false; O 1 true] = true
+    /\ odiag_update Z demo w_oxn [O 1 true; O 1 false; O 1 true] = Ok root'
+    /\ str root' = T [32; 40; 48; 46; 49; 32; 70; 73; 88; 41; 32; 40; 48; 46; 49; 41; 32; 40; 48; 46; 49; 32; 70; 73; 88; 41; 10]%nat
+    /\ osem Z demo root' = Ok [O 1 true; O 1 false; O 1 true].
+Proof. eexists. repeat split; vm_compute; reflexivity. Qed.
+
+(* the part of the (v)xn split that is still open (finding C04-OMEGA-XN-SPLIT-NAMES):
+   '$OMEGA (0.3)x2 ; IOV1', first variance := 0.4.  The values are written correctly (the guard holds),
+   but the name comment stays behind the LAST copy: '(0.4) (0.3) ; IOV1' - the edited parameter IOV1
+   re-reads without a name and the comment now names the second one. *)
+Definition w_oname : node :=
+  (Tree 1%positive [(Tok 14%positive [32]%N); (Tree 23%positive [(Tok 7%positive [40]%N); (Tree 3%positive [(Tok 10%positive [48; 46; 51]%N)]); (Tok 8%positive [41]%N); (Tree 6%positive [(Tok 17%positive [120]%N); (Tok 18%positive [50]%N)])]); (Tok 14%positive [32]%N); (Tok 15%positive [59; 32; 73; 79; 86; 49]%N); (Tok 16%positive [10]%N)]).
+Theorem omega_refuted_xn_name_moves :
+  exists root ps root' nm,
+    oguard_record Z demo root ps = true
+    /\ odiag_update Z demo root ps = Ok root' /\ osem Z demo root' = Ok ps
+    /\ str root' = T [32; 40; 48; 46; 52; 41; 32; 40; 48; 46; 51; 41; 32; 59; 32; 73; 79; 86; 49; 10]%nat
+    /\ map fst (match parse_diag Z demo root with Ok l => l | Err _ => [] end) = [Some nm; Some nm]
+    /\ map fst (match parse_diag Z demo root' with Ok l => l | Err _ => [] end) = [None; Some nm].
 Proof.
-  exists w_oxn, [O 1 true; O 1 false; O 1 true]. eexists. repeat split; vm_compute; reflexivity.
+  exists w_oname, [O 4 false; O 3 false]. eexists. eexists. repeat split; vm_compute; reflexivity.
 Qed.
+
+(* regression for the repaired finding C04-OMEGA-DIAG-ITEM-REMOVED (commit 5bd60d8): removing the last
+   item of '$OMEGA 0.1 0.2 0.3' keeps the final NEWLINE (' 0.1 0.2 \n'); before the fix the record lost
+   it and the next record was glued to the line. *)
+Definition w_o3 : node :=
+  (Tree 1%positive [(Tok 14%positive [32]%N); (Tree 23%positive [(Tree 3%positive [(Tok 10%positive [48; 46; 49]%N)])]); (Tok 14%positive [32]%N); (Tree 23%positive [(Tree 3%positive [(Tok 10%positive [48; 46; 50]%N)])]); (Tok 14%positive [32]%N); (Tree 23%positive [(Tree 3%positive [(Tok 10%positive [48; 46; 51]%N)])]); (Tok 16%positive [10]%N)]).
+Example omega_remove_last_item_fixed :
+  str (odiag_remove w_o3 [2%nat]) = T [32; 48; 46; 49; 32; 48; 46; 50; 32; 10]%nat
+  /\ osem Z demo (odiag_remove w_o3 [2%nat]) = Ok [O 1 false; O 2 false]
+  /\ str (odiag_remove w_o3 [1%nat]) = T [32; 48; 46; 49; 32; 48; 46; 51; 10]%nat.
+Proof. repeat split; vm_compute; reflexivity. Qed.
 
 (* $OMEGA 1.0 SD, variance := 2.0 with finite-precision arithmetic: 1.4 SD is written, 1.9 is read back
    (on the real code: $OMEGA 0.3 SD, variance := 0.2 -> 0.4472135954999579 SD -> 0.19999999999999998) *)
